@@ -398,3 +398,20 @@ Example ex_sdcch4_0_dl : fw_fires fw_MF_TASK_SDCCH4_0 K_NB_DL false 20 = true /\
   fw_fires fw_MF_TASK_SDCCH4_0 K_NB_UL true 55 = true /\ fw_fires fw_MF_TASK_TCH_H_1 K_TCH_A true 2715647 = false /\
   fw_fires fw_MF_TASK_TCH_F_ODD K_TCH_A true 23 = true.
 Proof. vm_compute. repeat split; reflexivity. Qed.
+
+(* every channel a frame of a layout uses gets a channel state when a timeslot is configured with that layout *)
+Lemma configured_has_state : forall L fr d, In L tx_layouts -> In fr (ly_frames L) -> fr_chan d fr <> tx_L1SCHED_IDLE ->
+  In (fr_chan d fr) (trx_configured L).
+Proof.
+  intros L fr d HL Hfr Hn.
+  destruct (mask_covers L fr d HL Hfr Hn) as [Hr [H64 Hb]].
+  unfold trx_configured. apply filter_In. split.
+  - apply in_range. lia.
+  - rewrite Hb. replace (fr_chan d fr <? 64) with true by (symmetry; apply Z.ltb_lt; exact H64). reflexivity.
+Qed.
+
+Lemma configured_only_mask : forall L c, In c (trx_configured L) -> 0 <= c < tx_CHAN_MAX /\ Z.testbit (ly_mask L) c = true.
+Proof.
+  intros L c H. unfold trx_configured in H. apply filter_In in H. destruct H as [Hr Hb].
+  apply range_in in Hr. apply andb_true_iff in Hb. destruct Hb as [_ Hb]. split; [lia | exact Hb].
+Qed.
